@@ -1,6 +1,10 @@
 """C16 — smearing particles onto a lattice conserves the smeared quantity.
 
-Tie C only (Float driver, tolerance 1e-9).  The Lean model (`Core/Smear.lean`) computes node
+Tie T: harness/translate/smear.py regenerates Gen/Smear.lean (`add_particle_data`, `add_same_spaced_grid` and every
+helper they go through, constructor attributes included) from the current source; Lemmas/SmearGen.lean proves the
+generated functions equal to the hand model, Props/C16/Gen.lean restates the property about them.
+Tie C (Float driver, tolerance 1e-9): the hand model (`smear`) AND the generated function (`gsmear`) are run against
+the real code on every case.  The Lean model (`Core/Smear.lean`) computes node
 coordinates, temporary lattice, normalisation, closest node, inside test, nearest node,
 accumulation and reset; the kernel values (scipy pdf, Gaussian or covariant) and
 `round(n_sigma*sigma/spacing)` are parameters, taken from the real code path on every case
@@ -25,6 +29,22 @@ warnings.filterwarnings("ignore")
 QUANTITIES = ["energy_density", "number_density", "charge_density", "baryon_density", "strangeness_density"]
 ATTR = dict(energy_density="E", charge_density="charge", baryon_density="baryon_number",
             strangeness_density="strangeness")
+
+
+# ------------------------------------------------------------------ translator (tie T)
+def translate(ctx):
+    from translate import smear
+    src = common.read_src("Lattice3D.py")
+    text, regions, info = smear.render(src)
+    common.write_if_changed(common.LEAN / "SparkxVerif/Gen/Smear.lean", text)
+    golden = common.LEAN / "golden/Gen/Smear.lean"
+    ctx.cov["gen_equals_golden"] = golden.exists() and golden.read_text() == text
+    ctx.cov["translated_methods"] = sorted(info)
+    ctx.cov["tie"] = ("T+C: Gen/Smear.lean regenerated from the current source (add_particle_data, add_same_spaced_grid, "
+                      "reset, closest / nearest node search, coordinates, by-index access, constructor attributes), proved "
+                      "equal to the hand model (Lemmas/SmearGen); hand model and generated function both run at Float "
+                      "against the real class; scipy pdf values, round, linspace: parameters")
+    return regions
 
 
 # ------------------------------------------------------------------ real code access
@@ -102,7 +122,8 @@ def run_real(case, record=True):
         nums.append(round(ns * case["sigma"] / sp))
     return dict(status=status, grid=[float(v) for v in lat.grid_.flatten()], V=float(lat.cell_volume_),
                 kvals=rec.vals, nums=nums, lattice=lat,
-                values=[quantity_value(p, case["quantity"]) for p in parts])
+                values=[quantity_value(p, case["quantity"]) for p in parts],
+                seen=[[float(getattr(p, a)) for a in GEN_ATTRS] for p in parts])
 
 
 def recompute_kernel(lat, d, sigma, kernel, nums):
@@ -160,6 +181,42 @@ def enc_case(case, real):
     grid = "z" if case.get("grid") is None else common.fl(case["grid"])
     line = "\t".join(["smear", enc_lattice(case["lattice"]), "1" if case["add"] else "0", grid, "|".join(parts) or "."])
     return line, chunks, how
+
+
+GEN_ATTRS = ["x", "y", "z", "E", "charge", "baryon_number", "strangeness", "px", "py", "pz"]
+
+
+def fx(v):
+    return "-" if v != v else f2h(v)
+
+
+def enc_gcase(case, real, chunks):
+    """driver line for the GENERATED add_particle_data: the object as the constructor built it (extents, node counts,
+    n_sigma), the call's arguments, the particles as the getters show them, the recorded pdf values"""
+    lat = real["lattice"]
+    ns = ",".join(f2h(float(v)) for v in (lat.n_sigma_x_, lat.n_sigma_y_, lat.n_sigma_z_))
+    parts = []
+    for seen, ks in zip(real["seen"], chunks):
+        parts.append(",".join([fx(v) for v in seen] + [";".join(fx(k) for k in ks)]))
+    grid = "z" if case.get("grid") is None else common.fl(case["grid"])
+    return "\t".join(["gsmear", enc_lattice(case["lattice"]), ns, f2h(float(case["sigma"])), case["quantity"],
+                      case["kernel"], "1" if case["add"] else "0", grid, "|".join(parts) or "."])
+
+
+def compare_gen(case, real, out):
+    """None when the generated function agrees with the real run, else a description"""
+    if real["status"] != "ok":
+        return None if out.startswith("err") else f"code raised {real['status']}, generated function answered {out[:60]}"
+    if not out.startswith("ok "):
+        return f"code returned a lattice, generated function answered {out[:60]}"
+    g = common.parse_fl(out[3:])
+    if len(g) != len(real["grid"]):
+        return f"grid size: code {len(real['grid'])} generated {len(g)}"
+    m = max(1e-300, max(abs(x) for x in real["grid"]))
+    for idx, (a, b) in enumerate(zip(real["grid"], g)):
+        if abs(a - b) > 1e-9 * m:
+            return f"node {idx}: code {a!r} generated function {b!r} (max |grid| {m!r})"
+    return None
 
 
 # ------------------------------------------------------------------ generators
@@ -652,15 +709,18 @@ def correspond(ctx):
             ax = c["lattice"]["axes"][0]
             lin_lines.append(f"closest\t{f2h(ax[0])},{f2h(ax[1])},{ax[2]}\t{f2h(d['x'])}")
             lin_meta.append(("closest", c, d))
-    reals, lines, metas = [], [], []
+    reals, lines, metas, glines = [], [], [], []
     for c in cases:
         real = run_real(c)
         line, chunks, how = enc_case(c, real)
         check_contract(ctx, c, real, chunks)
         reals.append(real)
         lines.append(line)
+        glines.append(enc_gcase(c, real, chunks))
         metas.append(how)
-    outs = common.run_driver("C16", lin_lines + lines)
+    outs = common.run_driver("C16", lin_lines + lines + glines)
+    gouts = outs[len(lin_lines) + len(lines):]
+    outs = outs[:len(lin_lines) + len(lines)]
     for (meta, out) in zip(lin_meta, outs[:len(lin_lines)]):
         if meta[0] == "lin":
             ax = meta[1]
@@ -701,6 +761,12 @@ def correspond(ctx):
         bad = compare(c, real, out)
         if bad:
             ctx.brk("correspondence-broken", bad, case={k: v for k, v in c.items() if k != "grid"})
+    for c, real, gout in zip(cases, reals, gouts):
+        ctx.count("generated/" + ("raises" if gout.startswith("err") else "ok" if gout.startswith("ok") else "bad-op"))
+        bad = compare_gen(c, real, gout)
+        if bad:
+            ctx.brk("correspondence-broken", "generated add_particle_data (Gen/Smear.lean): " + bad,
+                    case={k: v for k, v in c.items() if k != "grid"})
 
 
 # ------------------------------------------------------------------ search on the real code
